@@ -3,7 +3,8 @@
    named here (qnormalize excepted, which is Base/Vec.v's copy of wp.normalize) are
    the definitions REGENERATED from /repo/mujoco_warp/_src/math.py in Gen/math.v. *)
 From Coq Require Import ZArith Reals List.
-From VF Require Import Base.Scalar Base.ScalarR Base.Vec Gen.math Proof.Rot.
+From Coq Require Import String.
+From VF Require Import Base.Scalar Base.ScalarR Base.Vec Base.Kernel Gen.math Gen.kforward Proof.Rot Proof.NextPos.
 Import ListNotations.
 Local Open Scope R_scope.
 
@@ -44,6 +45,36 @@ Theorem C23_quat_to_mat_det :
   forall a b c d : R, nrm2 (q4 a b c d) = 1 -> mdet3 (quat_to_mat (q4 a b c d)) = 1.
 Proof. exact quat_to_mat_det. Qed.
 Print Assumptions C23_quat_to_mat_det.
+
+(* KERNEL level: the task function translated from forward._next_position (Gen/kforward.v).
+   For a free joint (type 0) the values it stores into qpos slots adr+3..adr+6 of its world
+   form a unit quaternion - for every model array, state, velocity scale and timestep;
+   likewise slots adr..adr+3 for a ball joint (type 1). *)
+Theorem C23_next_position_free_quat_unit :
+  forall (w j : Z) (opt_timestep : Z -> R) (jnt_type jnt_qposadr jnt_dofadr : Z -> Z)
+         (qpos_in qvel_in : Z -> Z -> R) (scale : R) (qpos_out : Z -> Z -> R) (orc : nat -> Z) (nts : Z),
+    jnt_type j = 0%Z ->
+    let ws := k__next_position w j opt_timestep jnt_type jnt_qposadr jnt_dofadr qpos_in qvel_in scale qpos_out orc nts in
+    let adr := jnt_qposadr j in
+    exists a b c d,
+      stored ws "qpos_out" [w; (adr + 3)%Z] = Some a /\ stored ws "qpos_out" [w; (adr + 4)%Z] = Some b /\
+      stored ws "qpos_out" [w; (adr + 5)%Z] = Some c /\ stored ws "qpos_out" [w; (adr + 6)%Z] = Some d /\
+      nrm2 (q4 a b c d) = 1.
+Proof. exact next_position_free_quat_unit. Qed.
+Print Assumptions C23_next_position_free_quat_unit.
+
+Theorem C23_next_position_ball_quat_unit :
+  forall (w j : Z) (opt_timestep : Z -> R) (jnt_type jnt_qposadr jnt_dofadr : Z -> Z)
+         (qpos_in qvel_in : Z -> Z -> R) (scale : R) (qpos_out : Z -> Z -> R) (orc : nat -> Z) (nts : Z),
+    jnt_type j = 1%Z ->
+    let ws := k__next_position w j opt_timestep jnt_type jnt_qposadr jnt_dofadr qpos_in qvel_in scale qpos_out orc nts in
+    let adr := jnt_qposadr j in
+    exists a b c d,
+      stored ws "qpos_out" [w; (adr + 0)%Z] = Some a /\ stored ws "qpos_out" [w; (adr + 1)%Z] = Some b /\
+      stored ws "qpos_out" [w; (adr + 2)%Z] = Some c /\ stored ws "qpos_out" [w; (adr + 3)%Z] = Some d /\
+      nrm2 (q4 a b c d) = 1.
+Proof. exact next_position_ball_quat_unit. Qed.
+Print Assumptions C23_next_position_ball_quat_unit.
 
 (* non-vacuity: the hypotheses are met by a concrete non-trivial quaternion *)
 Example C23_unit_exists : nrm2 (q4 (3/5) 0 (4/5) 0) = 1.
